@@ -2,6 +2,7 @@
 //! spec/JptFlow.tla.
 use crate::util::*;
 use futures::executor::block_on;
+use identity_core::common::Duration;
 use identity_core::common::Object;
 use identity_core::common::Timestamp;
 use identity_core::common::Url;
@@ -18,6 +19,15 @@ use identity_credential::validator::JptCredentialValidationOptions;
 use identity_credential::validator::JptCredentialValidator;
 use identity_credential::validator::JptPresentationValidationOptions;
 use identity_credential::validator::JptPresentationValidator;
+use identity_credential::validator::JptCredentialValidatorUtils;
+use identity_credential::validator::JptPresentationValidatorUtils;
+use identity_credential::validator::JwtValidationError;
+use identity_credential::validator::StatusCheck;
+use identity_credential::revocation::RevocationBitmap;
+use identity_credential::revocation::RevocationDocumentExt;
+use identity_credential::revocation::RevocationTimeframeStatus;
+use identity_credential::credential::Status;
+use identity_storage::TimeframeRevocationExtension;
 use identity_did::CoreDID;
 use identity_did::DIDUrl;
 use identity_did::DID;
@@ -64,6 +74,9 @@ fn world() -> World {
   gen(&mut other, "bbs-1", ProofAlgorithm::BLS12381_SHA256);
   let m = issuer.id().to_url().join("#bbs-1").unwrap();
   issuer.attach_method_relationship(&m, MethodRelationship::AssertionMethod).unwrap();
+  let svc_id = issuer.id().to_url().join("#revocation").unwrap();
+  let svc = RevocationBitmap::new().to_service(svc_id).unwrap_or_else(|e| tool_error(&e.to_string()));
+  issuer.insert_service(svc).unwrap_or_else(|e| tool_error(&e.to_string()));
   let cred = credential("issuer", None, BOUND - 1000);
   let base_jpt = block_on(issuer.create_credential_jpt(&cred, &storage, "bbs-1", &JwpCredentialOptions::default(), None))
     .unwrap_or_else(|e| tool_error(&format!("cannot issue the base JPT: {e}")));
@@ -349,4 +362,196 @@ fn replay_chunk(cases: &[Value], rep: &mut Report) {
 
 pub fn replay(cases: &[Value], rep: &mut Report) {
   par_replay(cases, rep, replay_chunk);
+}
+
+// ------------------------------------------------------------------------------------------------------------------
+// RevocationTimeframe2024 against spec/TimeframeRevocation.tla
+// ------------------------------------------------------------------------------------------------------------------
+const TICK: i64 = 1000;
+const T0: i64 = 1_600_000_000;
+const INDEX: u32 = 5;
+
+fn tick(n: i64) -> Timestamp {
+  Timestamp::from_unix(T0 + n * TICK).unwrap()
+}
+
+fn frame_of(update: &str) -> (i64, i64) {
+  match update {
+    "later" => (20, 30),
+    "shifted" => (15, 25),
+    "earlier" => (0, 10),
+    _ => (10, 20),
+  }
+}
+
+fn cause_of(e: &JwtValidationError) -> &'static str {
+  match e {
+    JwtValidationError::Revoked => "revoked",
+    JwtValidationError::OutsideTimeframe => "outside_timeframe",
+    JwtValidationError::JwpProofVerificationError(_) => "proof",
+    _ => "other",
+  }
+}
+
+fn run_tfr(case: &Value, w: &World) -> Vec<(String, Value, Value)> {
+  let row = &case["row"];
+  let mut diffs = Vec::new();
+  let accept = b(&case["out"]["accept"]);
+  // the credential, alive in [10, 20]
+  let status: Status = RevocationTimeframeStatus::new(
+    Some(tick(10)),
+    Duration::seconds((10 * TICK) as u32),
+    Url::parse("did:example:issuer#revocation").unwrap(),
+    INDEX,
+  )
+  .unwrap()
+  .into();
+  let subject = Subject::from_json_value(json!({"id": "did:example:subject", "name": "Alice", "degree": {"type": "BachelorDegree", "name": "BSc"}})).unwrap();
+  let cred: Credential = CredentialBuilder::default()
+    .id(Url::parse("https://example.edu/credentials/42").unwrap())
+    .issuer(Url::parse("did:example:issuer").unwrap())
+    .type_("UniversityDegreeCredential")
+    .issuance_date(tick(0))
+    .subject(subject)
+    .status(status)
+    .build()
+    .unwrap();
+  let old = block_on(w.issuer.create_credential_jpt(&cred, &w.storage, "bbs-1", &JwpCredentialOptions::default(), None))
+    .unwrap_or_else(|e| tool_error(&format!("cannot issue: {e}")));
+  let vopts = JptCredentialValidationOptions::new();
+  let mut token = old.clone();
+  let update = s(&row["update"]);
+  if update != "none" {
+    let decoded = match JptCredentialValidator::validate::<_, Object>(&old, &w.issuer, &vopts, FailFast::FirstError) {
+      Ok(d) => d,
+      Err(e) => {
+        diffs.push(("fresh_credential_rejected".into(), json!("accepted"), json!(e.to_string())));
+        return diffs;
+      }
+    };
+    let mut jwp = decoded.decoded_jwp.clone();
+    let (st, en) = frame_of(update);
+    match block_on(w.issuer.update(&w.storage, "bbs-1", Some(tick(st)), Duration::seconds(((en - st) * TICK) as u32), &mut jwp)) {
+      Ok(newer) => {
+        if s(&row["which"]) == "new" {
+          token = newer;
+        }
+      }
+      Err(e) => {
+        diffs.push(("~update_refused".into(), json!("updated"), json!(e.to_string())));
+        return diffs;
+      }
+    }
+  }
+  if b(&row["edited"]) {
+    // the holder rewrites the two timeframe payloads himself
+    let carried = if s(&row["which"]) == "new" { frame_of(update) } else { (10, 20) };
+    let mut seg = split(token.as_str());
+    let mut ps: Vec<String> = seg[1].split('~').map(|x| x.to_string()).collect();
+    let enc = |t: Timestamp| encode_b64(serde_json::to_vec(&json!(t.to_rfc3339())).unwrap());
+    let (mut hit_s, mut hit_e) = (false, false);
+    for p in ps.iter_mut() {
+      if *p == enc(tick(carried.0)) && !hit_s {
+        *p = enc(tick(0));
+        hit_s = true;
+      } else if *p == enc(tick(carried.1)) && !hit_e {
+        *p = enc(tick(100));
+        hit_e = true;
+      }
+    }
+    if !(hit_s && hit_e) {
+      diffs.push(("timeframe_payloads_not_found".into(), json!("two payloads"), json!([hit_s, hit_e])));
+      return diffs;
+    }
+    seg[1] = ps.join("~");
+    token = Jpt::new(seg.join("."));
+  }
+  let mut doc = w.issuer.clone();
+  if b(&row["revoked"]) {
+    doc.revoke_credentials("#revocation", &[INDEX]).unwrap_or_else(|e| tool_error(&e.to_string()));
+  }
+  let mode = match s(&row["mode"]) {
+    "Strict" => StatusCheck::Strict,
+    "SkipUnsupported" => StatusCheck::SkipUnsupported,
+    _ => StatusCheck::SkipAll,
+  };
+  let at = tick(i(&row["at"]));
+  let carried = if b(&row["edited"]) { (0, 100) } else if s(&row["which"]) == "new" { frame_of(update) } else { (10, 20) };
+  let verdict: Result<(), String> = (|| {
+    let decoded = JptCredentialValidator::validate::<_, Object>(&token, &doc, &vopts, FailFast::FirstError)
+      .map_err(|e| e.validation_errors.first().map(cause_of).unwrap_or("other").to_string())?;
+    if s(&row["form"]) == "issued" {
+      // what the credential carries
+      let st = decoded.credential.credential_status.as_ref().and_then(|x| RevocationTimeframeStatus::try_from(x).ok());
+      match st {
+        Some(st) if st.start_validity_timeframe() == tick(carried.0) && st.end_validity_timeframe() == tick(carried.1) && st.index() == Some(INDEX) => {}
+        other => return Err(format!("carried_status:{other:?}")),
+      }
+      if decoded.credential.credential_subject != cred.credential_subject || decoded.credential.id != cred.id {
+        return Err("other_attributes_changed".into());
+      }
+      let both = JptCredentialValidatorUtils::check_timeframes_and_revocation_with_validity_timeframe_2024(&decoded.credential, &doc, Some(at), mode);
+      let tf = JptCredentialValidatorUtils::check_timeframes_with_validity_timeframe_2024(&decoded.credential, Some(at), mode);
+      let rv = JptCredentialValidatorUtils::check_revocation_with_validity_timeframe_2024(&decoded.credential, &doc, mode);
+      if both.is_ok() != (tf.is_ok() && rv.is_ok()) {
+        return Err("combined_check_disagrees_with_its_parts".into());
+      }
+      both.map_err(|e| cause_of(&e).to_string())
+    } else {
+      let mut sdp = SelectiveDisclosurePresentation::new(&decoded.decoded_jwp);
+      let _ = sdp.conceal_in_subject("name");
+      let p = block_on(doc.create_presentation_jpt(&mut sdp, "did:example:issuer#bbs-1", &JwpPresentationOptions::default()))
+        .map_err(|e| format!("presentation_refused:{e}"))?;
+      let d = JptPresentationValidator::validate::<_, Object>(&p, &doc, &JptPresentationValidationOptions::default(), FailFast::FirstError)
+        .map_err(|e| e.validation_errors.first().map(cause_of).unwrap_or("other").to_string())?;
+      // the index stays with the holder
+      if let Some(st) = d.credential.credential_status.as_ref() {
+        if st.properties.get("revocationBitmapIndex").map(|v| !v.is_null()).unwrap_or(false) {
+          if std::env::var("VH_JPT_DEBUG").is_ok() {
+            eprintln!("JPTDBG presented status {}", serde_json::to_string(st).unwrap());
+            eprintln!("JPTDBG presented jpt {}", p.as_str());
+          }
+          return Err("index_disclosed".into());
+        }
+      }
+      JptPresentationValidatorUtils::check_timeframes_with_validity_timeframe_2024(&d.credential, Some(at), mode).map_err(|e| cause_of(&e).to_string())
+    }
+  })();
+  match (&verdict, accept) {
+    (Ok(()), true) => {}
+    (Ok(()), false) => diffs.push(("accepted_although_dead".into(), json!({"cause": case["out"]["cause"]}), json!("accepted"))),
+    (Err(c), true) => diffs.push((if c.contains(':') || c.contains('_') && c != "outside_timeframe" { "contract".into() } else { "~rejected_although_alive".into() }, json!("accepted"), json!(c))),
+    (Err(c), false) => {
+      if c.starts_with("carried_status") || c == "other_attributes_changed" || c == "combined_check_disagrees_with_its_parts" || c == "index_disclosed" {
+        diffs.push(("contract".into(), json!("rejected for its cause"), json!(c)));
+      } else if c != s(&case["out"]["cause"]) {
+        diffs.push(("~cause".into(), case["out"]["cause"].clone(), json!(c)));
+      }
+    }
+  }
+  diffs
+}
+
+fn replay_chunk_tfr(cases: &[Value], rep: &mut Report) {
+  let w = world();
+  for case in cases {
+    note_case(&case["row"]);
+    rep.eval();
+    match guarded(|| run_tfr(case, &w)) {
+      Err(p) => rep.mismatch("timeframe_revocation/panic", case, json!("no panic"), json!(p), "panic"),
+      Ok(diffs) => {
+        for (k, exp, obs) in diffs {
+          rep.mismatch(&format!("timeframe_revocation/{k}"), case, exp, obs, "");
+        }
+      }
+    }
+    rep.nontrivial(format!("{}", case["row"]));
+    if b(&case["out"]["accept"]) {
+      rep.sample(case.clone());
+    }
+  }
+}
+
+pub fn replay_tfr(cases: &[Value], rep: &mut Report) {
+  par_replay(cases, rep, replay_chunk_tfr);
 }
